@@ -27,6 +27,7 @@ pub fn run(id: &str, tier: &str) -> i32 {
         "C15" => sessions::check_c15(tier),
         "C16" => filter::check_c16(tier),
         "C17" => server_family::check_c17(tier),
+        "C18" => ffi::check_c18(tier),
         "C19" => ffi::check_c19(tier),
         "C20" => decode::check_c20(tier),
         _ => {
@@ -72,6 +73,7 @@ pub fn replay(path: &str) -> i32 {
         Some("c15") => sessions::replay_c15(scn),
         Some("c16-string") | Some("c16-match") | Some("c16-server") | Some("c16-ffi") => filter::replay_c16(scn),
         Some("c19-db") | Some("c19-schedule") => ffi::replay_c19(scn),
+        Some("c18-client") | Some("c18-server") | Some("c18-call-errors") | Some("c18-enums") => ffi::replay_c18(scn),
         Some("client-sm") => client_sm::replay(scn),
         Some("client-stream") => framing::replay_client_stream(scn),
         k => {
